@@ -99,6 +99,9 @@ def shrink(case, fails):
     return {"cfg": case["cfg"], "ops": ops}
 
 
+CONC_PROPS = {"C01", "C02", "C04", "C05", "C14", "C18"}      # properties whose check includes the interleaved stage (lib/conclib.py)
+
+
 def run(prop, theorems, tier, replay=None, extra_gen=None, known_classifier=None, rule_note="", link=(), extra_stage=None):
     thorough = tier == "thorough"
     r = Rng(seed())
@@ -272,11 +275,53 @@ def run(prop, theorems, tier, replay=None, extra_gen=None, known_classifier=None
                         for ci in sorted(set(index[b][0] for b in bad)):
                             disagreements.append({"case": ccases[ci], "parsable": True})
 
+    conc_stats = {}
+
+    def conc_search(ccases, tag):
+        """interleaved stage (lib/conclib.py): requests suspended in parked modulator calls / waiting for channel locks while
+        others run, connections go away and names come back.  The real server's observation must be explained by SOME
+        schedule of Model/Conc.v (Conf/ConcConf.conc_case, decided by coqc); interleaving-aware monitors judge the traces."""
+        import conclib as cl
+        okc, mkc = coq_make(["Conf/ConcConf.vo"])
+        if not okc:
+            broken.append("Conf/ConcConf.vo does not compile: " + (mkc or "")[-800:])
+        if not ccases:
+            return
+        obs = observe(ccases, tag + "i")
+        if obs is None:
+            return
+        want = set(tags) | {prop, "PANIC"}
+        conc_stats["interleaved_histories"] = conc_stats.get("interleaved_histories", 0) + len(ccases)
+        conc_stats["interleaved_ops"] = conc_stats.get("interleaved_ops", 0) + sum(len(c["ops"]) for c in ccases)
+        for c, ob in zip(ccases, obs):
+            conc_stats.setdefault("interleaved_families", {})
+            conc_stats["interleaved_families"][c["conc"]] = conc_stats["interleaved_families"].get(c["conc"], 0) + 1
+            conc_stats["parked_calls"] = conc_stats.get("parked_calls", 0) + sum(1 for op in c["ops"] for x in (op.get("script") or []) if isinstance(x, dict) and "park" in x)
+            for (tagv, what, t) in cl.monitor(c, ob) + [x for x in srvmon.audit_check(c, ob)]:
+                if tagv == "K01a":
+                    if prop == "C01" and "K01a" in known:
+                        known_seen.setdefault("K01a", c)
+                    elif prop == "C01":
+                        violations.append(("C01", what, c, t))
+                elif tagv in want:
+                    violations.append((tagv, what, c, t))
+        if okc:
+            terms = [cl.case_term(c, ob) for c, ob in zip(ccases, obs)]
+            bad, cout = coq_eval(cl.PRELUDE, terms, kind="bool", tag=tag + "ic")
+            if bad is None:
+                broken.append("interleaved correspondence could not be evaluated: " + cout[-600:])
+            else:
+                conc_stats["interleaved_explained"] = conc_stats.get("interleaved_explained", 0) + len(ccases) - len(bad)
+                for i in bad:
+                    disagreements.append({"case": ccases[i], "parsable": True})
+
     if replay:
         with open(replay) as f:
             rj = json.load(f)
         rc = rj.get("cases", [])
-        search([c for c in rc if "kind" not in c and "calls" not in c and "ops" in c and "cfg" in c], "r")
+        search([c for c in rc if "kind" not in c and "calls" not in c and "ops" in c and "cfg" in c and not c.get("conc")], "r")
+        if prop in CONC_PROPS:
+            conc_search([c for c in rc if c.get("conc") and "ops" in c and "cfg" in c], "r")
         if extra_stage and any("ops" not in c for c in rc):
             extra_stage(thorough, violations, link_stats)      # (a boot / contention witness is re-run, not replayed)
         link_search([c for c in rc if "kind" in c], [c for c in rc if "calls" in c], "r")
@@ -291,13 +336,19 @@ def run(prop, theorems, tier, replay=None, extra_gen=None, known_classifier=None
                         ll.gen_client_cases(r, 600 if thorough else 60) if "client" in link else [], "q")
         if extra_stage:
             extra_stage(thorough, violations, link_stats)
+        if prop in CONC_PROPS:
+            import conclib as cl
+            conc_search(cl.histories(r, thorough), "q")
         if (broken or disagreements) and not violations:
             log("proof/correspondence broken; extended search", (broken or [""])[0][:300])
             more = gen_histories(Rng(seed() + 7919), 300, prop, 10, 40)
             for d in disagreements[:20]:
-                if "kind" not in d["case"] and "calls" not in d["case"]:
+                if "kind" not in d["case"] and "calls" not in d["case"] and not d["case"].get("conc"):
                     more.append(d["case"])
             search(more, "x")
+            if prop in CONC_PROPS:
+                import conclib as cl
+                conc_search(cl.histories(Rng(seed() + 15485863), True), "x")
             if link:
                 link_search((ll.gen_link_histories(Rng(seed() + 104729), 600) + ll.gen_conc_link_histories(Rng(seed() + 104729), 200)) if "link" in link else [],
                             ll.gen_client_cases(Rng(seed() + 104729), 300) if "client" in link else [], "x")
@@ -309,7 +360,7 @@ def run(prop, theorems, tier, replay=None, extra_gen=None, known_classifier=None
         "evaluations": stats["histories"], "distinct_nontrivial": len(distinct),
         "rule": "random mostly-valid client histories (opens, CONNECT/IDENTIFY or AUTH, joins incl. on-behalf, leaves, broadcasts with binary payloads, listings with boundary page values, ACL/config changes, direct messages, odd/out-of-phase frames, hangups; scripted modulator outcomes) run against the real in-process server under virtual time; the Coq model replays the same ops and coqc decides agreement on the frames relevant to this property (%s); distinct non-trivial = distinct op lists in which at least one frame was received. %s" % (", ".join(kinds) or "all", rule_note),
         "traces_validated_against_impl": stats["histories"], "disagreements": len(disagreements),
-        "distribution": dict(stats, **link_stats), "samples": samples, "known_findings_reproduced": sorted(known_seen), "exhaustive": False,
+        "distribution": dict(dict(stats, **link_stats), **conc_stats), "samples": samples, "known_findings_reproduced": sorted(known_seen), "exhaustive": False,
     }
     assum = ["Model/Server.v is hand-written (sequential semantics: one client action processed to quiescence, modulator calls answered immediately from a script); tied to the code by the correspondence; HashSet iteration order (new-owner pick, clean-up order) is an oracle input taken from the observation",
              "tokio scheduling, async_lock::RwLock, DashMap atomicity are modelled, not verified; cross-thread interleavings are outside the sequential theorems"]
@@ -322,7 +373,7 @@ def run(prop, theorems, tier, replay=None, extra_gen=None, known_classifier=None
         return 1
     if broken or disagreements:
         rp = write_replay(prop, "broken", {"what": "no failing input found; the following no longer checks", "broken": broken,
-                                           "correspondence": "Conf/ServerConf.conf_case_k (%s)" % ",".join(kinds),
+                                           "correspondence": "Conf/ServerConf.conf_case_k (%s)%s" % (",".join(kinds), "; Conf/ConcConf.conc_case (interleaved histories)" if any(d["case"].get("conc") for d in disagreements) else ""),
                                            "cases": [d["case"] for d in disagreements[:5]]})
         write_evidence(prop, tier, coverage, assum, 1)
         print(f"VIOLATION property={prop} replay={rp} no-failing-input-found")
